@@ -118,6 +118,9 @@ def c08(ctx):
     mc_animator(ctx)          # KeepsOthers: properties the current state's timeline does not animate keep their value
     rep2 = animator_legA(ctx)
     judge_replay(ctx, rep2, lambda m: m.get("class") == "untouched", "animator touched a field no timeline animates")
+    rep3 = shapes_run(ctx, 60 if ctx.quick() else 800)     # struct shapes: which fields carry #[animate]
+    if rep3 is not None:
+        judge_replay(ctx, rep3, lambda m: m.get("class") in ("excluded-field-touched", "keyframe_from"), "a field excluded from animation is animated / copied")
     ctx.assumptions += ["targets are pre-filled with distinct sentinel values in every field (incl. a field without #[animate] and an Option field); untouched = bit-identical afterwards"]
     return "model_checking", RULE_TL
 
@@ -607,3 +610,54 @@ RULE_BLOCKS = ("TLC draws pseudo-random animator! blocks (default clause absent 
                "configuration (checking ReadingFacts, Consistent, NoJump, PauseRules on it) and drives it with a pseudo-random history of 30 operations; the real "
                "animator! compiles every block; the macro-built animator must equal the StateAnimatorBuilder twin bit for bit after every operation (values, state, "
                "is_ended, internal clock and pause record) and the specification's predicted observations")
+
+
+def shapes_run(ctx, nshapes):
+    """C17 machinery (also used by C08 for the struct-shape part): returns the report."""
+    run = run_tlc(ctx, "MC_Shapes", "MC_Shapes.cfg", workers=4, subst={"NShapes": nshapes}, capture="gen-shapes.txt", timeout=3000)
+    n = count_replay(run["out"])
+    if n == 0:
+        raise ToolError("shape generator produced no shapes")
+    gdir = ctx.path("gens")
+    p = subprocess.run(["python3", os.path.join(ROOT, "bin", "gen_macros.py"), "shapes", run["out"], gdir], capture_output=True, text=True)
+    if p.returncode != 0:
+        raise ToolError("gen_macros failed: " + p.stderr[-1000:])
+    b = build_gen(ctx, gdir, binary="gens")
+    if b.returncode != 0:
+        if "shapes.rs" not in b.stderr:
+            raise ToolError("the repository (or the harness) does not compile: " + b.stderr[-1500:])
+        ctx.violation("a supported struct shape does not compile with the real derive (a predicted setter is missing, or the output is ill-typed)", {"rustc": b.stderr[-1800:]})
+        return None
+    rep = run_harness([run["out"]], which=GEN, binary="gens")
+    ctx.traces += n
+    ctx.evaluations += rep["evals"]
+    shapes = json.load(open(os.path.join(gdir, "shapes.json")))
+    ctx.sample({"shape": shapes[0]})
+    ill = json.load(open(os.path.join(gdir, "ill.json")))
+    files = [os.path.join(gdir, "ill_%02d.rs" % j) for j in range(len(ill))]
+    res = rustc_rejects(ctx, files, os.path.join(GEN, "target", "debug", "deps"))
+    ctx.extra["setter_existence"] = [{"class": it["class"], "shape": it["shape"], "field": it["field"], "compiles": acc} for it, (_, acc, err) in zip(ill, res)]
+    for it, (_, acc, err) in zip(ill, res):
+        if it["class"].startswith("control"):
+            if not acc:
+                ctx.violation("the setter of an animated field does not exist", {"shape": it["shape"], "field": it["field"], "error": err})
+        elif acc:
+            ctx.violation("a setter exists for a field excluded from animation", {"shape": it["shape"], "field": it["field"]})
+    ctx.traces += len(ill)
+    return rep
+
+
+RULE_SHAPES = ("TLC draws pseudo-random struct shapes (1..6 fields over f32/f64/u8/i16/i32/u32, any #[animate] subset incl. none, doc comments before the marker, "
+               "other attributes on excluded fields, private / pub / pub(crate), local or remote proxy, rotated field order) each with a keyframe list and timing, and "
+               "predicts the animated set and every evaluation with Timeline.tla; the real derive compiles every shape (using exactly the predicted setters); values at "
+               "every tick, untouched excluded fields, keyframe_from's copy set and the metadata accessors are compared; setter (non-)existence is rustc's verdict on "
+               "one file per sampled shape")
+
+
+@check("C17")
+def c17(ctx):
+    rep = shapes_run(ctx, 80 if ctx.quick() else 1500)
+    if rep is not None:
+        judge_replay(ctx, rep, lambda m: True, "derive(Animate) output vs specification")
+    ctx.assumptions += ["field types from {f32,f64,u8,i16,i32,u32}; generics are not supported by the derive and not generated"]
+    return "model_checking", RULE_SHAPES
